@@ -84,6 +84,10 @@ def tie(tier, seed, replay):
     from .. import c13_byods
     by = c13_byods.run(tier, seed)
     mism += by["mismatches"]
+    # the REAL index fields after run() and after run(); push; run() against the per-index engine model (Engine/IndexedEval.v)
+    from .. import indexed_tie
+    idx = indexed_tie.run_tie(tier, seed + 1000, tag="indexed_c13" + ("" if tier == "quick" else "t"))
+    mism += idx["mismatches"]
     sample = [dict(program=r["text"], script=r["case"]["scripts"][-1], impl=[{k: v[1][:5] for k, v in prog.canon_snap(s).items()} for s in r["impl"][-1]["snaps"]] if r["impl"] and "snaps" in r["impl"][-1] else r["impl"]) for r in results[:2]]
     return dict(evaluations=sum(len(r["case"]["scripts"]) for r in results) + lat["evaluations"] + by["evaluations"], distinct_nontrivial=len(distinct) + lat["distinct"] + by["distinct"],
                 rule="PLAIN HALF: random programs (2/3 positive C01-style, 1/3 stratified with aggregates / negation) x histories run;run | run;push;run;push;run | run(empty);push;run;run with facts pushed into any relation incl. derived ones; every snapshot compared; non-trivial = history with at least two runs; distinct = distinct (program, history).  BYODS HALF (gen/c13_byods.py): programs of the C10 / C11 / C12 generators (eqrel, trrel, trrel_uf relations, binary and ternary) x histories run;run | run;push;run | run;run;push;run | run(empty);push;run;push;run, each compared with the fresh run of the same program on the union of the inputs (plain relations as sets; no model column).  " + lat["rule"],
@@ -91,4 +95,4 @@ def tie(tier, seed, replay):
                 mismatches=lat["mismatches"] + mism,
                 trusted_base=["FRONT hook + gen/dl.py plan translation; gen/prog.py generated crates", "Engine/Rerun.v models the program value between runs (stored indices kept, rows appended)"] + lat["trusted_base"],
                 assumptions=["facts pushed between runs are appended to the public Vec fields, as a user would"] + lat["assumptions"],
-                extra=dict(cases_skipped_model_too_slow=nskipped, parallel_histories=npar, byods_histories=by["evaluations"], byods_distribution=by["distribution"], **lat["extra"]))
+                extra=dict(cases_skipped_model_too_slow=nskipped, parallel_histories=npar, indexed_engine_vs_real_index_fields=dict(idx["coverage"], histories=idx["evaluations"], rule=idx["rule"]), byods_histories=by["evaluations"], byods_distribution=by["distribution"], **lat["extra"]))
